@@ -3,7 +3,7 @@ import random
 from elayer import Prog
 
 # ------------------------------------------------------------------------------------------------ C07
-C07_SUPPORT = r'''
+C07_SUPPORT = r"""
 use core::cell::Cell;
 /// call log with interior mutability, threaded through the values themselves (no global state)
 pub struct Log { pub buf: Cell<[u8; 24]>, pub n: Cell<usize> }
@@ -13,45 +13,61 @@ impl Log {
     pub fn same(&self, o: &Log) -> bool { self.n.get() == o.n.get() && self.buf.get() == o.buf.get() }
 }
 impl core::fmt::Debug for Log { fn fmt(&self, f: &mut core::fmt::Formatter) -> core::fmt::Result { write!(f, "{:?}", &self.buf.get()[..self.n.get().min(24)]) } }
-/// field type whose Clone::clone / clone_from record (kind, self.id[, source.id])
+/// field type whose Clone::clone / clone_from record (kind, self.id[, source.id]); it is Copy, with a hand-written Clone
 #[derive(Debug)]
 pub struct Tr<'a> { pub id: u8, pub log: &'a Log }
+impl<'a> Copy for Tr<'a> {}
 impl<'a> Clone for Tr<'a> {
     fn clone(&self) -> Self { self.log.put(1); self.log.put(self.id); Tr { id: self.id, log: self.log } }
     fn clone_from(&mut self, s: &Self) { self.log.put(2); self.log.put(self.id); self.log.put(s.id); self.id = s.id; }
 }
-pub type Snap = (u8, [u8; 4]);
-'''
+/// field type without a lifetime: the calls are observable in the value (clone: gen+1, clone_from: gen+16)
+#[derive(Debug)]
+pub struct Tg { pub id: u8, pub gen: u8 }
+impl Copy for Tg {}
+impl Clone for Tg {
+    fn clone(&self) -> Self { Tg { id: self.id, gen: self.gen.wrapping_add(1) } }
+    fn clone_from(&mut self, s: &Self) { self.id = s.id; self.gen = s.gen.wrapping_add(16); }
+}
+pub type Snap = (u8, [u8; 4], [u8; 4]);
+"""
 
 
 def c07_prog(name, rng, force=None):
     is_enum = rng.random() < 0.6 if force is None else force
+    with_lt = rng.random() < 0.55
+    pool = ["Tr", "Tr", "u8", "Tg"] if with_lt else ["Tg", "Tg", "u8"]
+    derive = rng.choice([["Clone"], ["Clone"], ["Copy", "Clone"], ["Clone", "Copy"]])
+    L = "<'a>" if with_lt else ""
     def mkv(vn):
         kind = rng.choice(["unit", "tuple", "named"])
         n = 0 if kind == "unit" else rng.randint(0, 4)
-        return (vn, kind, [rng.choice(["Tr", "Tr", "u8"]) for _ in range(n)])
+        return (vn, kind, [rng.choice(pool) for _ in range(n)])
     vs = [mkv("ABCD"[i]) for i in range(rng.randint(1, 4))] if is_enum else [mkv("X")]
+    TY = {"Tr": "Tr<'a>", "u8": "u8", "Tg": "Tg", "PD": "core::marker::PhantomData<&'a ()>"}
     def fields_decl(kind, tys, pub):
         if kind == "unit":
             return ""
-        ts = [{"Tr": "Tr<'a>", "u8": "u8", "PD": "core::marker::PhantomData<&'a ()>"}[t] for t in tys]
+        ts = [TY[t] for t in tys]
         if kind == "named":
             return " { " + ", ".join("%s%s: %s" % (pub, "abcde"[i], t) for i, t in enumerate(ts)) + " }"
         return "(" + ", ".join(pub + t for t in ts) + ")"
+    head = "#[derive_ex::derive_ex(%s)]\n#[derive(Debug)]\n" % ", ".join(derive)
     if is_enum:
+        extra = ", #[doc(hidden)] Zl(core::marker::PhantomData<&'a ()>)" if with_lt else ""
         body = ", ".join(v[0] + fields_decl(v[1], v[2], "") for v in vs)
-        td = "#[derive_ex::derive_ex(Clone)]\n#[derive(Debug)]\npub enum X<'a> { %s, #[doc(hidden)] Zl(core::marker::PhantomData<&'a ()>) }\n" % body
-        vs_all = vs + [("Zl", "tuple", ["PD"])]
+        td = head + "pub enum X%s { %s%s }\n" % (L, body, extra)
+        real = vs
     else:
         v = vs[0]
-        fd = fields_decl(v[1], v[2] + ["PD"], "pub ") if v[1] != "unit" else "(pub core::marker::PhantomData<&'a ()>)"
-        if v[1] == "unit":
-            vs = [("X", "tuple", [])]
-            v = vs[0]
-        fd = fd.replace("PD", "core::marker::PhantomData<&'a ()>")
-        td = "#[derive_ex::derive_ex(Clone)]\n#[derive(Debug)]\npub struct X<'a>%s%s\n" % (fd, "" if v[1] == "named" else ";")
-        vs_all = [(v[0], v[1], v[2] + ["PD"])]
-    # patterns
+        if with_lt:
+            if v[1] == "unit":
+                v = ("X", "tuple", [])
+            v = (v[0], v[1], v[2] + ["PD"])
+        vs = [v]
+        fd = fields_decl(v[1], v[2], "pub ")
+        td = head + "pub struct X%s%s%s\n" % (L, fd, "" if v[1] == "named" else ";")
+        real = vs
     def pat(v, pre):
         path = ("X::" + v[0]) if is_enum else "X"
         if v[1] == "unit":
@@ -64,68 +80,83 @@ def c07_prog(name, rng, force=None):
         path = ("X::" + v[0]) if is_enum else "X"
         if v[1] == "unit":
             return path
-        es = []
-        for t in v[2]:
-            es.append({"Tr": "Tr { id: s.u8(), log }", "u8": "s.u8()", "PD": "core::marker::PhantomData"}[t])
+        es = [{"Tr": "Tr { id: s.u8(), log }", "u8": "s.u8()", "PD": "core::marker::PhantomData", "Tg": "Tg { id: s.u8(), gen: s.u8() & 7 }"}[t] for t in v[2]]
         if v[1] == "named":
             return path + " { " + ", ".join("%s: %s" % ("abcde"[i], e) for i, e in enumerate(es)) + " }"
         return path + "(" + ", ".join(es) + ")"
-    real = vs_all if not is_enum else vs          # the hidden lifetime-carrier variant is never constructed
     n = len(real)
-    mk = "pub fn mk<'a, S: Src>(s: &mut S, log: &'a Log) -> X<'a> {\n    match s.u8() %% %d {\n%s\n        _ => %s,\n    }\n}\n" % (
-        n, "\n".join("        %d => %s," % (i, ctor(v)) for i, v in enumerate(real[:-1])), ctor(real[-1]))
-    def ids(v, pre):
+    mk = "pub fn mk<'a, S: Src>(s: &mut S, log: &'a Log) -> X%s {\n    match s.u8() %% %d {\n%s\n        _ => %s,\n    }\n}\n" % (
+        L, n, "\n".join("        %d => %s," % (i, ctor(v)) for i, v in enumerate(real[:-1])), ctor(real[-1]))
+    def arr(v, pre, what):
         out = []
         for i, t in enumerate(v[2]):
-            if t == "Tr":
-                out.append("%s%d.id" % (pre, i))
-            elif t == "u8":
-                out.append("*%s%d" % (pre, i))
+            if what == "id":
+                if t in ("Tr", "Tg"):
+                    out.append("%s%d.id" % (pre, i))
+                elif t == "u8":
+                    out.append("*%s%d" % (pre, i))
+            else:
+                if t == "Tg":
+                    out.append("%s%d.gen" % (pre, i))
+                elif t in ("Tr", "u8"):
+                    out.append("0")
         out = out[:4] + ["0"] * (4 - len(out[:4]))
         return "[" + ", ".join(out) + "]"
-    snap = "pub fn snap(x: &X) -> Snap {\n    match x {\n%s\n        _ => (255, [0; 4]),\n    }\n}\n" % "\n".join(
-        "        %s => (%d, %s)," % (pat(v, "x"), i, ids(v, "x")) for i, v in enumerate(real))
+    snap = "pub fn snap(x: &X) -> Snap {\n    match x {\n%s\n        #[allow(unreachable_patterns)] _ => (255, [0; 4], [0; 4]),\n    }\n}\n" % "\n".join(
+        "        %s => (%d, %s, %s)," % (pat(v, "x"), i, arr(v, "x", "id"), arr(v, "x", "gen")) for i, v in enumerate(real))
+    def gens_after(v, pre, delta):
+        out = []
+        for i, t in enumerate(v[2]):
+            if t == "Tg":
+                out.append("%s%d.gen.wrapping_add(%d)" % (pre, i, delta))
+            elif t in ("Tr", "u8"):
+                out.append("0")
+        out = out[:4] + ["0"] * (4 - len(out[:4]))
+        return "[" + ", ".join(out) + "]"
+    # expected result of clone: same variant / ids, every Tg field cloned exactly once (gen + 1)
+    exp_clone = "pub fn exp_clone(x: &X) -> Snap {\n    match x {\n%s\n        #[allow(unreachable_patterns)] _ => (255, [0; 4], [0; 4]),\n    }\n}\n" % "\n".join(
+        "        %s => (%d, %s, %s)," % (pat(v, "x"), i, arr(v, "x", "id"), gens_after(v, "x", 1)) for i, v in enumerate(real))
+    cf_arms = "\n".join("        (%s, %s) => (%d, %s, %s)," % (pat(v, "_a"), pat(v, "y"), i, arr(v, "y", "id"), gens_after(v, "y", 16)) for i, v in enumerate(real))
+    exp_cf = "pub fn exp_clone_from(a: &X, b: &X) -> Snap {\n    match (a, b) {\n%s\n        (_, b) => exp_clone(b),\n    }\n}\n" % cf_arms
     def clone_log(v, pre):
         return " ".join("l.put(1); l.put(%s%d.id);" % (pre, i) for i, t in enumerate(v[2]) if t == "Tr")
-    ref_clone = "pub fn ref_clone_log(x: &X) -> Log {\n    let l = Log::new();\n    match x {\n%s\n        _ => {}\n    }\n    l\n}\n" % "\n".join(
+    ref_clone = "pub fn ref_clone_log(x: &X) -> Log {\n    let l = Log::new();\n    match x {\n%s\n        #[allow(unreachable_patterns)] _ => {}\n    }\n    l\n}\n" % "\n".join(
         "        %s => { %s }" % (pat(v, "x"), clone_log(v, "x")) for v in real)
     arms = []
     for v in real:
         cf = " ".join("l.put(2); l.put(%s%d.id); l.put(%s%d.id);" % ("x", i, "y", i) for i, t in enumerate(v[2]) if t == "Tr")
         arms.append("        (%s, %s) => { %s }" % (pat(v, "x"), pat(v, "y"), cf))
     ref_cf = ("pub fn ref_clone_from_log(a: &X, b: &X) -> Log {\n    let l = Log::new();\n    match (a, b) {\n%s\n        (_, b) => { let c = ref_clone_log(b); return c; }\n    }\n    l\n}\n" % "\n".join(arms))
-    wr = r'''
+    wr = r"""
 #[cfg_attr(kani, kani::modifies(log))]
-#[cfg_attr(kani, kani::ensures(|r: &X<'a>| log.same(&ref_clone_log(x)) && snap(r) == snap(x)))]
-pub fn w_clone<'a>(x: &X<'a>, log: &'a Log) -> X<'a> { Clone::clone(x) }
-#[cfg_attr(kani, kani::modifies(log))]
-#[cfg_attr(kani, kani::ensures(|r: &X<'a>| log.same(exp) && snap(r) == snap(b)))]
-pub fn w_clone_from<'a>(a: X<'a>, b: &X<'a>, exp: &Log, log: &'a Log) -> X<'a> { let mut a = a; Clone::clone_from(&mut a, b); a }
+#[cfg_attr(kani, kani::ensures(|r: &XL| log.same(&ref_clone_log(x)) && snap(r) == exp_clone(x)))]
+pub fn w_clone<'a>(x: &XL, log: &'a Log) -> XL { Clone::clone(x) }
+pub fn w_clone_from<'a>(a: XL, b: &XL, log: &'a Log) -> XL { let mut a = a; Clone::clone_from(&mut a, b); a }
 #[cfg(kani)]
 pub mod proofs {
     use super::*;
     #[kani::proof_for_contract(w_clone)]
     pub fn clone() { let mut s = KaniSrc; let log = Log::new(); let x = mk(&mut s, &log); let _r = w_clone(&x, &log); kani::cover!(true); }
-    // the same postcondition asserted in a loop-free harness: Kani's contract instrumentation of the enum assignment
+    // the same kind of postcondition asserted in a loop-free harness: Kani's contract instrumentation of the enum assignment
     // `*lhs = clone(rhs)` (drop glue) costs > 200 s and 11 GB per harness
     #[kani::proof]
-    pub fn clone_from() { let mut s = KaniSrc; let log = Log::new(); let a = mk(&mut s, &log); let b = mk(&mut s, &log); let exp = ref_clone_from_log(&a, &b); let r = w_clone_from(a, &b, &exp, &log); assert!(log.same(&exp) && snap(&r) == snap(&b), "postcondition of w_clone_from"); kani::cover!(true); }
+    pub fn clone_from() { let mut s = KaniSrc; let log = Log::new(); let a = mk(&mut s, &log); let b = mk(&mut s, &log); let exp = ref_clone_from_log(&a, &b); let es = exp_clone_from(&a, &b); let r = w_clone_from(a, &b, &log); assert!(log.same(&exp) && snap(&r) == es, "postcondition of w_clone_from"); kani::cover!(true); }
 }
 pub fn replay(h: &str, bytes: &[u8]) -> (bool, String) {
     let mut s = VecSrc { v: bytes.to_vec(), i: 0 };
     let log = Log::new();
     match h {
         "clone" => { let x = mk(&mut s, &log); let r = w_clone(&x, &log); let e = ref_clone_log(&x);
-            (log.same(&e) && snap(&r) == snap(&x), format!("x={:?} clone()={:?} calls={:?} expected calls={:?}", snap(&x), snap(&r), log, e)) }
-        "clone_from" => { let a = mk(&mut s, &log); let b = mk(&mut s, &log); let e = ref_clone_from_log(&a, &b); let sa = snap(&a); let sb = snap(&b);
-            let r = w_clone_from(a, &b, &e, &log);
-            (log.same(&e) && snap(&r) == sb, format!("a={:?} b={:?} after a.clone_from(&b): a={:?} calls={:?} expected calls={:?}", sa, sb, snap(&r), log, e)) }
+            (log.same(&e) && snap(&r) == exp_clone(&x), format!("x={:?} clone()={:?} expected {:?}; recorded calls={:?} expected calls={:?}", snap(&x), snap(&r), exp_clone(&x), log, e)) }
+        "clone_from" => { let a = mk(&mut s, &log); let b = mk(&mut s, &log); let e = ref_clone_from_log(&a, &b); let es = exp_clone_from(&a, &b); let sa = snap(&a); let sb = snap(&b);
+            let r = w_clone_from(a, &b, &log);
+            (log.same(&e) && snap(&r) == es, format!("a={:?} b={:?} after a.clone_from(&b): a={:?} expected {:?}; recorded calls={:?} expected calls={:?}", sa, sb, snap(&r), es, log, e)) }
         _ => (true, String::from("unknown harness")),
     }
 }
-'''
-    desc = ("enum " if is_enum else "struct ") + " | ".join("%s%s[%s]" % (v[0], {"unit": "", "tuple": "()", "named": "{}"}[v[1]], ",".join(v[2])) for v in vs)
-    return Prog(name, td + "\n" + mk + snap + ref_clone + ref_cf + wr, ["clone", "clone_from"], {"describe": desc})
+""".replace("XL", "X<'a>" if with_lt else "X")
+    desc = ("enum " if is_enum else "struct ") + " | ".join("%s%s[%s]" % (v[0], {"unit": "", "tuple": "()", "named": "{}"}[v[1]], ",".join(v[2])) for v in vs) + " derive_ex(%s)%s" % (", ".join(derive), " <'a>" if with_lt else "")
+    return Prog(name, td + "\n" + mk + snap + exp_clone + exp_cf + ref_clone + ref_cf + wr, ["clone", "clone_from"], {"describe": desc})
 
 
 # ------------------------------------------------------------------------------------------------ C08
